@@ -36,6 +36,8 @@ def main():
             print(f'{n:10s} ALARM   ' + ' ;; '.join(bad[k]))
         else:
             print(f'{n:10s} silent')
+    # the verdict in one line, last: a listing cut by `head` / `tail` cannot hide an alarm
+    print(f'{len(names)} patches x {len(PROPS)} checks: {len(bad)} with an alarm ({", ".join(sorted(x[8:] for x in bad)) or "none"}), {len(skipped)} stale')
     return 1 if bad else 0
 
 
